@@ -4,6 +4,7 @@
    of the pinned commit (skip condition `err != nil && ok`, uint32 sums). *)
 From Verif Require Import Base.Util Model.V2 Proofs.V2Proofs Gen.Generated.
 From Verif Require Import Base.GenIR Gen.GeneratedTr Proofs.GenTrV2.
+From Verif Require Import Proofs.GenTrV2c.
 From Verif Require Import Base.GenIR Gen.GeneratedTr Proofs.GenTrV2b.
 Open Scope N_scope.
 
@@ -257,6 +258,49 @@ Theorem C16_gen_Observe_filter :
   g_v2_Observe_body pending err = if pending || err then ([], Fall) else ([1], Fall).
 Proof. exact gen_v2_Observe_body. Qed.
 Print Assumptions C16_gen_Observe_filter.
+
+(* filterAndDedupe: the model's filter_dedupe is the fold of the translated inner-loop body over the concatenated observations (skip when a filter matched or failed; record and append on first occurrence) *)
+Theorem C16_gen_dedupe :
+  forall pend inputs,
+  filter_dedupe id_order pend inputs = snd (fold_left (dd_step pend) (concat inputs) ([], [])).
+Proof. exact gen_v2_dedupe. Qed.
+Print Assumptions C16_gen_dedupe.
+
+(* filterAndDedupe, filter loop: a key is skipped as soon as one filter matches or fails *)
+Theorem C16_gen_dedupe_filter :
+  forall m e,
+  g_v2_dedupe_filter_body m e = if m || e then ([1], Brk) else ([], Fall).
+Proof. exact gen_v2_dedupe_filter. Qed.
+Print Assumptions C16_gen_dedupe_filter.
+
+(* filterDedupeShuffleObservations: shuffle only after a successful de-duplication *)
+Theorem C16_gen_dedupe_then_shuffle :
+  g_v2_filter_dedupe_shuffle false = ([1; 2], RetO 1) /\ g_v2_filter_dedupe_shuffle true = ([1], RetO 0).
+Proof. exact gen_v2_filter_dedupe_shuffle. Qed.
+Print Assumptions C16_gen_dedupe_then_shuffle.
+
+(* limitedLengthEncode, one more identifier: stop at the first prefix whose encoding exceeds the limit, keeping the previous one *)
+Theorem C16_gen_limited_encode_step :
+  forall blk limit pre i rest best,
+  lim_loop blk limit pre (i :: rest) best =
+  match g_v2_limited_encode_body false (Z.of_nat (enc_len blk (pre ++ [i]))) (Z.of_nat limit) with
+  | ([], Brk) => best
+  | ([1], Fall) => lim_loop blk limit (pre ++ [i]) rest (Some (pre ++ [i]))
+  | _ => None
+  end.
+Proof. exact gen_v2_limited_body. Qed.
+Print Assumptions C16_gen_limited_encode_step.
+
+(* limitedLengthEncode, whole function *)
+Theorem C16_gen_limited_encode :
+  forall blk ids limit,
+  limited_encode blk ids limit =
+  match g_v2_limited_encode (Z.of_nat (length ids)) with
+  | ([], RetO 1) => Some []
+  | _ => lim_loop blk limit [] ids None
+  end.
+Proof. exact gen_v2_limited. Qed.
+Print Assumptions C16_gen_limited_encode.
 
 End GenTie.
 
